@@ -20,11 +20,15 @@ type goPanic struct {
 	val   Value // the panic value as an interface value (Iface) or runtime error text
 	rtErr string
 	where string
+	text  string // rendered message when the value is an error or string
 }
 
 func (p *goPanic) String() string {
 	if p.rtErr != "" {
 		return "runtime error: " + p.rtErr
+	}
+	if p.text != "" {
+		return "panic: " + p.text
 	}
 	return "panic: " + showVal(p.val)
 }
